@@ -631,6 +631,7 @@ func c12Search() {
 			break
 		}
 		curIndex = idx
+		noteProgress(idx)
 		runSeed := derive(*flagSeed, fmt.Sprintf("C12/%s/%d", *flagMode, idx))
 		curSeed = runSeed
 		lex := -1
